@@ -189,7 +189,41 @@ def _rw_values_collect(text):
     return re.subn(r'iter\s*\.values\(\)[^;{}]*?\.collect\(\)', 'values_collect(iter)', text, flags=re.S)
 
 
+def _rw_drop_closure_bounds(text):
+    # RW27: drop the `M: Fn(I::Item) -> O + Send + Sync + Clone,` bound of map_into (the closure is only passed through)
+    return re.subn(r'\n\s*M: Fn\(I::Item\) -> O \+ Send \+ Sync \+ Clone,', '', text)
+
+
+def _rw_extend_split(text):
+    # RW28: `self.extend(split);` -> `vec_extend_split(&mut self, split);` (Vec::extend over SplitVec::into_iter: assumed, T4)
+    return re.subn(r'(self|this)\.extend\(split\);', r'vec_extend_split(&mut \1, split);', text)
+
+
+def _rw_mut_self(text):
+    # RW29: `fn f(mut self, ..) { BODY }` -> `fn f(self, ..) { let mut this = self; BODY[self := this] }`
+    # (Verus does not support `mut self`; a by-value `mut self` is exactly a mutable local initialised with self)
+    m = re.search(r'\(mut self,', text)
+    if not m:
+        return text, 0
+    src = Src(text)
+    fm = src.find_code(r'\bfn\b')
+    ob = src.next_code_char('{', fm[1])
+    head = text[:ob + 1].replace('(mut self,', '(self,', 1)
+    body = re.sub(r'\bself\b', 'this', text[ob + 1:])
+    return head + '\n        let mut this = self;' + body, 1
+
+
+def _rw_vec_reserve(text):
+    # RW30: `self.reserve(ARG);` -> `self.reserve_(ARG);` (vstd's Vec::reserve spec says nothing about capacity;
+    # the stand-in states the std contract `capacity >= len + additional`; ARG is copied verbatim)
+    return re.subn(r'\b(self|this)\.reserve\(([^;]*)\);', r'\1.reserve_(\2);', text)
+
+
 REWRITES = {
+    'RW30': ('self.reserve(ARG) -> self.reserve_(ARG) (extension method stating the std contract of Vec::reserve on the capacity, which the vstd spec omits: assumed, T4; ARG verbatim)', _rw_vec_reserve),
+    'RW29': ('fn f(mut self, ..) -> fn f(self, ..) { let mut this = self; .. } with self renamed to this in the body (Verus has no `mut self`)', _rw_mut_self),
+    'RW27': ('closure bound `M: Fn(I::Item) -> O + Send + Sync + Clone` dropped (the closure is passed through to map_col unchanged)', _rw_drop_closure_bounds),
+    'RW28': ('self.extend(split) -> vec_extend_split(&mut self, split) (Vec::extend over SplitVec: assumed, T4)', _rw_extend_split),
     'RW25': ('collected.extend(chunk<chain>) -> extend_chunk(&mut collected, chunk) (assumption T6: appends the survivors of the chunk, keeps what is there)', _rw_extend_chunk),
     'RW26': ('iter.values()<chain>.collect() -> values_collect(iter) (chunk-size-1 arm of this kernel is a single std adaptor chain: assumed, T6)', _rw_values_collect),
     'RW24': ('for (i, v) in chunk.values.map(map).filter(filter).enumerate() -> explicit counter over an assumed map+filter iterator (T6)', _rw_map_filter_enumerate),
